@@ -399,6 +399,42 @@ class GroupingHarness:
         r = it.call(m, [(ctx.fresh("opening", "val"), win)], {})
         self.rec(ctx, uid + "/what-is-handed-downstream-is-the-window-itself", r is win)
 
+    # -- sample(period / sampler) is sample_observable over the sampler / over interval(period) (C16) ----------------------------
+    def run_sample(self, ctx):
+        uid = "reactivex/operators/_sample.py::sample_"
+        captured = []
+
+        def hook(it_, f, args, kwargs):
+            fn = f.func if isinstance(f, BoundMethod) else f
+            q = getattr(fn, "qualname", None) if isinstance(fn, Closure) else None
+            if q == "sample_observable":
+                captured.append((list(args), dict(kwargs)))
+                return Opaque("applied", "sample_observable")
+            if q in ("interval", "interval_"):
+                a = list(args) + [None] * (2 - len(args))
+                return Opaque("interval", "interval(...)", period=kwargs.get("period", a[0]), scheduler=kwargs.get("scheduler", a[1]))
+            return NOTSET
+        it = self.setup(ctx, hook)
+        src = Opaque("source", "source")
+        by_observable = ctx.choose(2, "the sampler is an observable") == 0
+        sampler = Opaque("source", "sampler") if by_observable else ctx.fresh("period", "int")
+        f = it.module_get("reactivex.operators._sample", "sample_")
+        res = it.call(it.call(f, [sampler, self.sched], {}), [src], {})
+        ok = len(captured) == 1 and isinstance(res, Opaque) and res.name == "sample_observable"
+        self.rec(ctx, uid + "/is-sample_observable-applied-once", ok)
+        if not ok:
+            return
+        a, kw = captured[0]
+        a = a + [None] * (2 - len(a))
+        s0, s1 = kw.get("source", a[0]), kw.get("sampler", a[1])
+        self.rec(ctx, uid + "/samples-the-source-it-was-given", s0 is src)
+        if by_observable:
+            self.rec(ctx, uid + "/an-observable-sampler-is-used-as-it-is", s1 is sampler)
+        else:
+            okp = isinstance(s1, Opaque) and s1.kind == "interval" and isinstance(s1.attrs["period"], SV) and s1.attrs["period"].t.eq(sampler.t) and s1.attrs["scheduler"] is self.sched
+            self.rec(ctx, uid + "/a-period-samples-at-interval(period)-on-the-given-scheduler", okp,
+                     detail="the ticks of interval(period) are the C35 contract: one tick every period, the first one period after subscription")
+
     # -- K8 lemma: the closed forms of the window_with_count spec are the property's wording ----------------------------------
     def run_count_lemma(self, ctx):
         """specs/c18.py:window_with_count.valid says: when element n arrives, windows closed(n) .. opened(n)-1 are open, with
@@ -421,7 +457,10 @@ class GroupingHarness:
         t0 = time.time()
         try:
             todo = []
-            if which == "C19":
+            if which == "C16":
+                self.note("reactivex/operators/_sample.py", "sample_")
+                todo = [self.run_sample]
+            elif which == "C19":
                 for rel, fn in ((GFILE, "GroupedObservable"), (UFILE, "add_ref"), (BFILE, "group_by_"), (PFILE, "partition_"), (PFILE, "partition_indexed_")):
                     self.note(rel, fn)
                 todo = [lambda c: self.wiring(c, "grouped"), lambda c: self.wiring(c, "add_ref"), self.run_group_by,
@@ -470,6 +509,22 @@ MUTANTS = {
 
 def must_fail(which):
     out = {"mutants": 0, "killed": 0, "survivors": []}
+    if which == "C16":
+        rel = "reactivex/operators/_sample.py"
+        src = Loader().load_file(rel).src
+        for name, (a, b) in {"the scheduler is dropped": ("reactivex.interval(sampler, scheduler=scheduler)", "reactivex.interval(sampler)"),
+                             "source and sampler swapped": ("return sample_observable(source, sampler)", "return sample_observable(sampler, source)")}.items():
+            if a not in src:
+                continue
+            ld = Loader()
+            ld.overrides = {rel: src.replace(a, b, 1)}
+            h = GroupingHarness(ld).run(which)
+            out["mutants"] += 1
+            if h.unsupported or any(r.verdict == "refuted" for r in h.results):
+                out["killed"] += 1
+            else:
+                out["survivors"].append(f"{rel}: {name}")
+        return out
     if which != "C19":
         return out
     for rel, ms in MUTANTS.items():
@@ -489,7 +544,7 @@ def must_fail(which):
 
 
 def run_unit(desc):
-    which = desc["prop"] if desc["prop"] in ("C18", "C19") else "C19"
+    which = desc["prop"] if desc["prop"] in ("C16", "C18", "C19") else "C19"
     h = GroupingHarness().run(which)
     res = [r.as_dict() for r in h.results]
     rep = {
